@@ -754,7 +754,8 @@ func (a *Activation) doReturn(ins *ssa.Return, rs []Val, st *State, rc string) {
 		return
 	}
 	st = st.clone()
-	a.ghostAt("exit", st, rc, rs, nil)
+	a.curSt = st
+	a.ghostAt("exit", st, rc, rs, a.varsAtUpto(ins.Block(), true, nil, ins))
 	spec := a.spec
 	if spec == nil {
 		return
